@@ -100,6 +100,14 @@ func (C04) Gen(r *simrt.RNG, tier string) core.Case {
 			}
 		}
 		w.Ops = []world.Op{{Kind: world.OpRedefine, Target: 0, Args: sub}, {Kind: world.OpCallRedef, Redef: 0}}
+		if t := &w.Parties[0]; t.OutForm == world.FormPositional && t.InForm != world.FormBuilt && r.Chance(1, 3) {
+			// the target's last ordinary result is of a concrete type that implements error;
+			// sometimes it has no error result of its own at all
+			t.Out = append(append([]world.Slot{}, t.Out...), world.Slot{Label: world.Label{Type: world.ErrImpl}})
+			if r.Bool() {
+				t.HasErr = false
+			}
+		}
 	case 3:
 		if len(w.Parties[0].In) > 0 {
 			w.Ops = append(w.Ops, world.Op{Kind: world.OpConvert, Type: w.Parties[0].In[0].Type, Args: w.Ops[0].Args})
